@@ -120,7 +120,8 @@ pub fn decode(case: &str) -> Option<(u32, Vec<Ev>)> {
 
 pub fn units(plans: &[(bool, usize)], for_c03: bool) -> Vec<Unit> {
     let mut units: Vec<Unit> = Vec::new();
-    let ceilings = [1472u32, 10_000, u32::MAX];
+    // (C14 speaks about ceilings of at least one frame per second; the panic oracle of C03 also takes the rate limits a peer may announce below that)
+    let ceilings: Vec<u32> = if for_c03 { vec![1, 22, 23, 1472, 10_000, u32::MAX] } else { vec![1472u32, 10_000, u32::MAX] };
     for &(full, depth) in plans {
         let alpha = alphabet(full);
         for &ceil in &ceilings {
